@@ -361,7 +361,10 @@ mutual
     | 0, _, _, _ => fail "fuel"
     | f + 1, sc, pos, e =>
       match e with
-      | .int n => pure (.int n)
+      | .int n =>
+        -- grammar_parse.go: `p.assert(len(tok.Value) < 19, tok, "int literal is too large: %s", tok)` (the token of a
+        -- negative literal includes its sign): 19 characters = 10^18 and up, or -10^17 and down
+        if n ≥ 1000000000000000000 ∨ n ≤ -100000000000000000 then fail "int literal is too large" else pure (.int n)
       | .str s => pure (.str s)
       | .tru => pure (.bool true)
       | .fls => pure (.bool false)
